@@ -50,6 +50,7 @@ unit!(alias_chunk, "/verif/units/alias_chunk/harness.rs", {
         r
     }
 });
+unit!(lsp_tokens, "/verif/units/lsp_tokens/harness.rs", { pub use isograph_lsp::verif_hooks::api_tokens; });
 unit!(lsp_positions, "/verif/units/lsp_positions/harness.rs", { pub use isograph_lsp::verif_hooks::*; });
 
 fn main() {
@@ -71,6 +72,7 @@ fn main() {
         "folder_prefix" => folder_prefix::harness::dispatch(&name, &mut src),
         "small_bytes" => small_bytes::harness::dispatch(&name, &mut src),
         "alias_chunk" => alias_chunk::harness::dispatch(&name, &mut src),
+        "lsp_tokens" => lsp_tokens::harness::dispatch(&name, &mut src),
         "lsp_positions" => lsp_positions::harness::dispatch(&name, &mut src),
         _ => false,
     }));
